@@ -25,7 +25,7 @@ from .core import (
     digest,
     fork_call,
 )
-from .outcome import build_kwargs, exc_outcome, parse_outcome, table_digest
+from .outcome import build_kwargs, exc_outcome, parse_outcome, result_outcome, table_digest
 
 PROP = "C15"
 STEP_BUDGET = 4_000_000
@@ -67,12 +67,13 @@ def _do_build(g, b, spec):
     return p, rec, {"build": "ok", "table": table_digest(p.table)}
 
 
-def _do_parse(p, rec, op, armed=None):
+def _do_parse(p, rec, op, armed=None, keep=None):
     peers.SEAM.reset(armed)
     if isinstance(rec, peers.RecoveryPeer):
         rec.begin(op.get("peer_seed", 0))
     out = parse_outcome(
-        p, op["input"], with_errors=bool(rec), call_actions=op.get("mode") == "call_actions"
+        p, op["input"], with_errors=bool(rec), call_actions=op.get("mode") == "call_actions",
+        keep=keep,
     )
     out["seams"] = dict(peers.SEAM.counts)
     out["fired"] = peers.SEAM.fired
@@ -150,6 +151,7 @@ def child_history(spec, ops):
     """Execute the explicit op list on shared objects."""
     grammars, parsers = {}, {}
     outs = []
+    kept = {}
     try:
         with CpuGuard(CPU_BUDGET * 2):
             for op in ops:
@@ -179,7 +181,17 @@ def child_history(spec, ops):
                     f = op.get("fault")
                     if f is not None and f.get("k"):
                         armed = (f["seam"], f["k"])
-                    outs.append(_do_parse(p, rec, op, armed))
+                    keep = []
+                    outs.append(_do_parse(p, rec, op, armed, keep))
+                    if keep:
+                        kept[len(outs) - 1] = keep[0]
+                elif k == "reinspect":
+                    # look again, later, at a result returned by an earlier parse
+                    # (lazy forests and trees rely on retained parser state)
+                    if op["ref"] in kept:
+                        outs.append({"reinspect": result_outcome(kept[op["ref"]])})
+                    else:
+                        outs.append({"skipped": "nothing kept"})
                 else:
                     raise HarnessError(f"unknown op {k}")
     except StepBudgetExceeded:
@@ -282,6 +294,18 @@ def run_history(spec, ops, stats=None):
             stats.inc("build." + ("ok" if out.get("build") == "ok" else "failed"))
             pstate[op["p"]] = "new"
         rec["out"] = digest(comparable(out))
+        if k == "reinspect":
+            if "reinspect" in out and op["ref"] < len(outs):
+                first = {kk: vv for kk, vv in comparable(outs[op["ref"]]).items()
+                         if kk in out["reinspect"]}
+                stats.inc("reinspections")
+                if first != out["reinspect"]:
+                    divs.append({"i": i, "op": k, "actual": out["reinspect"], "fresh": first,
+                                 "prev_state": "result of op %d looked at again" % op["ref"]})
+                    rec["div"] = True
+                    stats.inc("div")
+            records.append(rec)
+            continue
         if faulted or want is None or "skipped" in out:
             records.append(rec)
             continue
@@ -406,6 +430,9 @@ def gen_run(rng, tier):
                 ops.append(parse_op(slot))
             if rng.random() < 0.4:
                 ops.append(parse_op(rng.choice(sorted(parsers))))
+        elif r < 0.63 and any(o["op"] == "parse" and not o.get("fault") for o in ops):
+            cands = [i for i, o in enumerate(ops) if o["op"] == "parse" and not o.get("fault")]
+            ops.append({"op": "reinspect", "ref": rng.choice(cands[-4:])})
         else:
             ops.append(parse_op(rng.choice(sorted(parsers))))
     if ops[-1]["op"] != "parse" or ops[-1].get("fault"):
